@@ -182,6 +182,19 @@ def table_checks():
             assert r.name == nm[e]
         except Exception as ex:  # noqa
             acc.add_problem(problem("get_rule_failed", {"element": e}, expected="a Rule", observed=repr(ex), element=e))
+    # the public helpers enumerate / resolve the same set of known names
+    try:
+        listed = list(mrule.node_names())
+    except Exception as ex:  # noqa
+        listed = None
+        acc.add_problem(problem("node_names_failed", {"what": "rule.node_names()"}, expected="a list", observed=repr(ex)))
+    if listed is not None:
+        for e in sorted(set(listed) | set(nm)):
+            if (e in nm) != (e in listed) or listed.count(e) > 1:
+                acc.add_problem(problem("node_names_disagrees_with_map", {"element": e}, expected="listed exactly once iff mapped",
+                                        observed={"in_map": e in nm, "times_listed": listed.count(e)}, element=e))
+            elif mrule.get_rule_name(e) != nm[e]:
+                acc.add_problem(problem("get_rule_name_wrong", {"element": e}, expected=nm[e], observed=mrule.get_rule_name(e), element=e))
     for rn in sorted(tab):
         acc.count("rules")
         try:
